@@ -10,7 +10,7 @@ from hypothesis import strategies as st
 from hypothesis.stateful import RuleBasedStateMachine, initialize, invariant, precondition, rule, run_state_machine_as_test
 
 from vlib import regionhist
-from vlib.core import Res, run_check
+from vlib.core import Res, run_check, workdir
 
 PROP = "C08"
 SHARDS = {"quick": 8, "thorough": 16}
@@ -343,7 +343,7 @@ def check_combine(c):
         def r6(p):
             return dict(p, ra=round(p["ra"], 6), dec=round(p["dec"], 6), r=round(max(p["r"], 1e-5), 6))
         c = dict(c, inc_circ=[r6(p) for p in c["inc_circ"]], exc_circ=[r6(p) for p in c["exc_circ"]], inc_poly=[], exc_poly=[])
-    d = tempfile.mkdtemp(prefix="c08c_")
+    d = workdir("c08c_")
     try:
         cont = MIMAS.Dummy(maxdepth=D)
         model = set()
